@@ -45,7 +45,8 @@ def run(ctx):
                         "BinFormat!Canon is made for contents with <= 48 strings, larger ones are compared as archive content",
                         "the harness maps field NAMES of the specification's table to struct fields; bit, order and width "
                         "come from the table only",
-                        "names are taken from the lossless Shift-JIS domain; the codec (encoding_rs) is trusted"]
+                        "every compared parse is preceded, on the same thread, by failing parses of truncated copies of the same image (a parse result must depend on the image alone)",
+                        "names are taken from the lossless Shift-JIS domain; the codec (encoding_rs) is trusted; names include 63/64/65 and 127/128/129-byte ones with a double-byte character across offsets 64 and 128"]
 
 
 def replay(ctx, rp):
